@@ -41,6 +41,11 @@ inductive FlagProc where
   | panic (site : String)
   | fuel
 
+/-- The console as it is when `run()` of main.rs enters the run loop: the two status lines. -/
+def runWorld (name : List Char) (inp : List Nat) : World :=
+  withOut (withOut { inp := inp, outRev := [] } (message "Assembling".toList ("target ".toList ++ name)))
+    (message "Running".toList "emitted binary".toList)
+
 def lastIsOpD : List Word → Bool
   | [] => false
   | [x] => Run.isOpD x
@@ -87,7 +92,7 @@ def laceFlag (cmd : FlagCmd) (fa : FlagArg) (fuel : Nat) (name dest : List Char)
           -- end of input (does not)
           let gate : Bool :=
             match Run.fromRaw (img.orig.getD 0x3000#16 :: img.words) with
-            | .ok m => !flag && lastIsOpD (Run.fetchedWords flag true fuel m { inp := inp, outRev := [] })
+            | .ok m => !flag && lastIsOpD (Run.fetchedWords flag true fuel m (runWorld name inp))
             | _ => false
           .finished { status := r.status, out := r.out, image := none, named := r.status == 1 && gate }
 
